@@ -168,6 +168,8 @@ PROGRAMS = [
     ("bool_chain3", "def f(a: int, b: int) -> int:\n    r = 0\n    if a > 0 and b > 0 and a != b:\n        r = r + 1\n    if a < 0 or b < 0 or a == b:\n        r = r + 10\n    if a > 1 and (b > 1 or a > 3) and b != 2:\n        r = r + 100\n    if a == 9 or b == 9 or a > b or b > 4:\n        r = r + 1000\n    return r\n"),
     ("while_cond_chain", "def f(a: int, b: int) -> int:\n    i = 0\n    while i < 10 and i != a and i * 2 != b:\n        i = i + 1\n    return i\n"),
     ("if_nested_else", "def f(a: int, b: int) -> int:\n    r = 0\n    if a > 0:\n        if b > 0:\n            r = 1\n        else:\n            r = 2\n    else:\n        if b > a:\n            r = 3\n    return r * 10 + a\n"),
+    ("loop_swap", "def f(a: int, b: int) -> int:\n    x = a\n    y = 7\n    z = 1\n    for i in range(b):\n        x, y = y, x\n        z = z + x\n    return x * 10000 + y * 100 + z\n"),
+    ("loop_rotate_fib", "def f(a: int, b: int) -> int:\n    x = 0\n    y = 1\n    z = a\n    i = 0\n    while i < b:\n        x, y, z = y, z, x + y\n        i = i + 1\n    return x * 10000 + y * 100 + z\n"),
     ("loop_acc_mul", "def f(a: int, b: int) -> int:\n    p = 1\n    i = 0\n    while i < b:\n        p = p * 3 + a\n        i += 1\n    return p\n"),
 ]
 
